@@ -154,12 +154,15 @@ Fixpoint c07_steps (l p : list (bytes * eobs)) : bool :=
 (* class 1 = K-C07-sep: a non-default menu separator is configured (the first menu of a new
    engine is built before the separator is applied) *)
 (* class 2 = K-C07-first: an entry function is configured (it runs once per ENGINE: once in the
-   long-lived engine, on every request in persisted operation) *)
+   long-lived engine, on every request in persisted operation);
+   class 3 = K-C07-longbad: some input is both over-long and malformed (an initialised engine checks
+   the pattern first and answers "continue, error"; a new engine checks the length first: "stop, error") *)
+Definition longbad_b (i : bytes) : bool := (INPUT_LIMIT <? len i) && negb (valid_input_b i).
 Definition c07_class (ec : ecase) : option N :=
   if c07_steps (ec_long ec) (ec_pers ec) then None
   else match c_first (ec_cfg ec) with
        | Some _ => Some 2
-       | None => match c_sep (ec_cfg ec) with [] => Some 0 | _ => Some 1 end
+       | None => if existsb (fun s => longbad_b (fst s)) (ec_pers ec) then Some 3 else Some 0
        end.
 Definition engine_violations_c07 (cs : list ecase) : list (N * N) := classify c07_class 0 cs.
 
